@@ -319,9 +319,20 @@ def run_property(modname, prop, tier, seed, nproc=None, budget_s=None):
     crashes = []
     skipped = [0]
     with ctx.Pool(nproc) as pool:
-        # dynamic queue: every finished task may hand back forced prefixes (sharding / work splitting)
-        running = [(t, pool.apply_async(_worker, (t,))) for t in tasks]
-        while running:
+        # dynamic queue: every finished task may hand back forced prefixes (sharding / work splitting).  At most 4 x nproc tasks
+        # are in the pool at a time; the rest wait in a local backlog that is simply dropped (counted as skipped => non-exhaustive)
+        # once the budget has ended.
+        from collections import deque
+        backlog = deque(tasks)
+        running = []
+        inflight = 4 * nproc
+        while running or backlog:
+            if time.time() > deadline and backlog:
+                skipped[0] += len(backlog)
+                backlog.clear()
+            while backlog and len(running) < inflight:
+                t = backlog.popleft()
+                running.append((t, pool.apply_async(_worker, (t,))))
             still = []
             progressed = False
             for t, ar in running:
@@ -338,16 +349,12 @@ def run_property(modname, prop, tier, seed, nproc=None, budget_s=None):
                     continue
                 results.append(st)
                 for pf in st.get("truncated", []):
-                    if time.time() > deadline:
-                        skipped[0] += 1
-                        continue
-                    nt = t[:5] + (pf, None) + t[7:]
-                    still.append((nt, pool.apply_async(_worker, (nt,))))
+                    backlog.append(t[:5] + (pf, None) + t[7:])
             running = still
             if not progressed:
                 time.sleep(0.01)
-            if time.time() > deadline + 120 and running:      # watchdog: a worker is stuck well past the budget
-                crashes.append({"crash": f"{len(running)} task(s) still running 120 s after the budget ended; pool terminated", "cfg": None})
+            if time.time() > deadline + 180 and running:      # watchdog: a worker is stuck well past the budget
+                crashes.append({"crash": f"{len(running)} task(s) still running 180 s after the budget ended; pool terminated", "cfg": None})
                 pool.terminate()
                 break
     # ---- aggregate
